@@ -654,6 +654,17 @@ func VerifC09RunUnit(unit string) (res VerifUnitResult) {
 		return vcaseID{fam: base.fam, ver: base.ver, cfg: base.cfg, devs: devs}
 	}
 	if p[3] == "1" {
+		// prelude: the decoder of this family first sees every truncation of the base encoding (what a fetch that ends
+		// in the middle of a message, or a broken connection, hands it all the time). Nothing is judged here (C10 does
+		// that); the point is that the cases below run AFTER malformed input: a decoder that keeps state between calls
+		// (pooled length fields, cached format detection) must not let it leak into the next, well-formed value
+		if e := vexecEncodeOnly(mk()); e != nil && e.b0 != nil && fam.dec != nil {
+			_, dec := fam.encdec(fam.Cfgs[base.cfg])
+			for l := 0; l < len(e.b0); l++ {
+				cut := append([]byte{}, e.b0[:l]...)
+				_ = vguard(func() error { _, err := dec(cut, base.ver); return err })
+			}
+		}
 		b := vexec(mk())
 		account(b)
 		collect(b)
